@@ -326,6 +326,9 @@ class _SfShim:
 
         class SoundFile(real.SoundFile):
             def __init__(self, *a, **kw):
+                if AUDIO.kind == "sf_open_crash" and not AUDIO.fired:
+                    AUDIO.fired = True
+                    _crash()
                 if AUDIO.kind == "sf_open_error" and not AUDIO.fired:
                     AUDIO.fired = True
                     raise real.LibsndfileError(
@@ -334,6 +337,9 @@ class _SfShim:
                 super().__init__(*a, **kw)
 
             def read(self, *a, **kw):
+                if AUDIO.kind == "sf_read_crash" and not AUDIO.fired:
+                    AUDIO.fired = True
+                    _crash()
                 if AUDIO.kind == "sf_read_error" and not AUDIO.fired:
                     AUDIO.fired = True
                     raise real.LibsndfileError(
